@@ -27,6 +27,10 @@ TABLE = [
  ('C03-messages-lost-unbatched', 'fixed', '2222222', 'items accepted with feed() are dropped by finish(): the framed writer is not flushed before the QUIC stream is finished'),
  ('C03-messages-differ-batched', 'fixed', '2222222', 'batched stream: final partial batch lost and earlier batch reversed (both defects at once)'),
  ('C03-messages-reordered-batched', 'fixed', '3333333', 'members of every batch are yielded in reverse order (Subscriber pops the decoded batch from the tail)'),
+ ('C12-replier-budget-not-per-outage', 'fixed', '4444444', 'Replier: the attempt iterator is created once per listen(), so the second outage announces its first reconnect as attempt 2 (lifetime budget instead of per-outage budget)'),
+ ('C12-replier-gave-up-within-budget', 'fixed', '4444444', 'Replier gives up with too-many-retries in an outage that needed fewer attempts than configured because earlier outages consumed the budget'),
+ ('C12-requestor-deaf-after-reconnect', 'fixed', '5555555', 'Requestor: after a successful reconnect every request times out because the reply-reader task still reads the old stream'),
+ ('C13-exponential-wraps-to-zero', 'fixed', '6666666', 'exponential(2) with 66 attempts and a 4 s cap: attempt 65 sleeps 0 ms because 2^64 wraps to 0 (u64::pow), instead of saturating at the cap'),
  ('C06-decoder-panic-decode-message-batch', 'fixed', '0000000', 'decode_message_batch panics on malformed input (short header: get_u64; oversize element: split_to; huge count: capacity overflow)'),
  ('C06-decoder-panic-subscriber-chain', 'fixed', '0000000', 'subscriber chain (decompress -> unbatch -> decode) panics inside decode_message_batch on malformed batch bodies'),
  ('C06-oversized-allocation-decode-message-batch', 'fixed', '0000000', 'decode_message_batch allocates count x 32 bytes for an attacker-chosen count (512 MiB for 8 input bytes)'),
@@ -42,7 +46,7 @@ def main():
         for l in log:
             if l.split(' ',1)[1].startswith(prefix): return l.split()[0]
         return None
-    subst = {'0000000': sha('fix: decode_message_batch'), '1111111': sha('fix: BincodeCodec::decode'), '2222222': sha('fix: Publisher::finish flushes'), '3333333': sha('fix: Subscriber yields the messages of a batch')}
+    subst = {'0000000': sha('fix: decode_message_batch'), '1111111': sha('fix: BincodeCodec::decode'), '2222222': sha('fix: Publisher::finish flushes'), '3333333': sha('fix: Subscriber yields the messages of a batch'), '4444444': sha('fix: request/reply streams get a fresh retry budget'), '5555555': sha('fix: Requestor reads replies from the new stream'), '6666666': sha('fix: backoff delays saturate')}
     out = []
     for f in sorted(glob.glob(os.path.join(HERE,'findings','*.json'))):
         b = os.path.basename(f)[:-5]
